@@ -1,3 +1,4 @@
 import B3.Io.Model
 import B3.Io.Proofs
 import B3.Io.Props
+import B3.Io.Drv
